@@ -48,7 +48,16 @@ def build_tree(sc: Scratch) -> Tree:
         z.file("many/f%02d.txt" % i, "f%d" % i)
     t.file("arch.zip", z.to_zip())
     t.file("cgi.sh", trees.script_echo_env(), mode=0o755)
+    # a script that takes a moment (shell built-ins only), in a sub-directory of its own
+    t.file("bin/slow.sh", b"#!/bin/sh\ni=0\nwhile [ $i -lt 30000 ]; do i=$((i+1)); done\necho slow script done\n", mode=0o755)
     t.file("gm/gophermap", "Welcome\n0Small\t/small.txt\n1Hot\t/hot\n")
+    # template pages that say, a few thousand times, which request they are being expanded for
+    for nm in ("a", "b", "c"):
+        t.file("tpl/%s.html.tal" % nm, ('<html><body><h1 tal:content="selector">s</h1><div tal:repeat="x python:range(12)">'
+                                        '<div tal:repeat="y python:range(12)"><p tal:repeat="z python:range(15)">'
+                                        '<b tal:content="selector">s</b> %s <i tal:content="talbasename">t</i> '
+                                        '<u tal:content="repeat/z/number">z</u></p></div></div>'
+                                        '<h2 tal:content="selector">s</h2></body></html>') % nm)
     t.file("packed.txt.gz", trees.gz(b"packed payload\n" * 500))
     return t
 
@@ -69,6 +78,11 @@ def request_mix() -> typing.List[typing.Tuple[str, bytes, typing.Optional[bytes]
     for v in ("gopher", "gophers", "http", "gemini", "spartan"):
         mix.append((v, b"/cgi.sh", b"query %s" % v.encode()))
         mix.append((v, b"/cgi.sh", None))
+    for v in ("gopher", "gophers", "http", "gemini", "spartan", "gopherp+"):
+        mix.append((v, b"/bin/slow.sh", None))
+    for nm in (b"a", b"b", b"c"):
+        for v in ("gopher", "http", "gemini", "gophers"):
+            mix.append((v, b"/tpl/" + nm + b".html.tal", None))
     for v in ("gopher", "gopherps+", "https", "spartan"):
         mix.append((v, b"/small.txt", None))
         mix.append((v, b"/large.bin", None))
@@ -281,7 +295,14 @@ def run_round(chk: Check, sc: Scratch, rd: int, servertype: str, nreq: int, yiel
                  ("handlers.ZIP.ZIPHandler", "enabled"): "true",
                  ("handlers.file.CompressedFileHandler", "decompressors"): driver.decompressors_option(),
                  ("handlers.dir.DirHandler", "cachetime"): "1000"}
-    sp = spdriver.ServerProcess(conf_overrides=overrides, root=root, servertype=servertype, tls=True, env=env,
+    start_dir = None
+    if (rd // 2) % 2 == 0:
+        # the document root given relatively to the directory the server is started from (no chroot): every look-up
+        # of every worker depends on the process's working directory staying what it is
+        overrides[("pygopherd", "root")] = os.path.basename(root)
+        start_dir = os.path.dirname(root)
+        chk.count("rounds_with_a_relative_root")
+    sp = spdriver.ServerProcess(conf_overrides=overrides, root=root, servertype=servertype, tls=True, env=env, cwd=start_dir,
                                 workdir=os.path.join(sc.path, "wd-%d" % rd), name="sut")
     sp.start()
     try:
